@@ -19,7 +19,19 @@ package rpm
 //@ func isSeparator
 //@   ensures result == (!unicode.IsLetter(r) && !unicode.IsDigit(r) && r != '~' && r != '^')   [C11]
 
-// Two-cursor scanner: outside the loop shapes govc summarises; bounded stand-in.
+// Two-cursor scanner.  The specification is rpmvercmp as the property states it, as a recursive function of the two cursor
+// positions (both already past separators): tilde first, then caret, then end of string, then one maximal segment of
+// digits or of letters from each string.  Where the segment kinds differ the specification says what RPM does (the numeric
+// segment is newer); go-univers decides the other way round there (known finding, pinned by its own test), so the
+// postcondition is stated for the pairs in which no such position is reached (sameKinds) and the rest stays with the
+// bounded obligations.
+//@ spec sepEnd(s string, i int) int = (0 <= i && i < len(s) && !unicode.IsLetter(s[i]) && !unicode.IsDigit(s[i]) && s[i] != '~' && s[i] != '^') ? sepEnd(s, i + 1) : i
+//@ spec dgEnd(s string, i int) int = (0 <= i && i < len(s) && unicode.IsDigit(s[i])) ? dgEnd(s, i + 1) : i
+//@ spec alEnd(s string, i int) int = (0 <= i && i < len(s) && unicode.IsLetter(s[i])) ? alEnd(s, i + 1) : i
+//@ spec isT(s string, i int) bool = i < len(s) && s[i] == '~'
+//@ spec isC(s string, i int) bool = i < len(s) && s[i] == '^'
+//@ spec rpmFrom(a string, i int, b string, j int) int = (isT(a, i) || isT(b, j)) ? (!isT(a, i) ? 1 : (!isT(b, j) ? -1 : rpmFrom(a, sepEnd(a, i + 1), b, sepEnd(b, j + 1)))) : ((isC(a, i) || isC(b, j)) ? (i >= len(a) ? -1 : (j >= len(b) ? 1 : (!isC(a, i) ? 1 : (!isC(b, j) ? -1 : rpmFrom(a, sepEnd(a, i + 1), b, sepEnd(b, j + 1)))))) : ((i >= len(a) || j >= len(b)) ? (i < len(a) ? 1 : (j < len(b) ? -1 : 0)) : (unicode.IsDigit(a[i]) ? (dgEnd(b, j) == j ? 1 : (compareRPMDigits(a[i:dgEnd(a, i)], b[j:dgEnd(b, j)]) != 0 ? compareRPMDigits(a[i:dgEnd(a, i)], b[j:dgEnd(b, j)]) : rpmFrom(a, sepEnd(a, dgEnd(a, i)), b, sepEnd(b, dgEnd(b, j))))) : (alEnd(b, j) == j ? -1 : (strings.Compare(a[i:alEnd(a, i)], b[j:alEnd(b, j)]) != 0 ? strings.Compare(a[i:alEnd(a, i)], b[j:alEnd(b, j)]) : rpmFrom(a, sepEnd(a, alEnd(a, i)), b, sepEnd(b, alEnd(b, j))))))))
+//@ spec sameKinds(a string, i int, b string, j int) bool = (isT(a, i) || isT(b, j)) ? (!isT(a, i) || !isT(b, j) || sameKinds(a, sepEnd(a, i + 1), b, sepEnd(b, j + 1))) : ((isC(a, i) || isC(b, j)) ? (i >= len(a) || j >= len(b) || !isC(a, i) || !isC(b, j) || sameKinds(a, sepEnd(a, i + 1), b, sepEnd(b, j + 1))) : ((i >= len(a) || j >= len(b)) ? true : (unicode.IsDigit(a[i]) ? (dgEnd(b, j) != j && (compareRPMDigits(a[i:dgEnd(a, i)], b[j:dgEnd(b, j)]) != 0 || sameKinds(a, sepEnd(a, dgEnd(a, i)), b, sepEnd(b, dgEnd(b, j))))) : (alEnd(b, j) != j && (strings.Compare(a[i:alEnd(a, i)], b[j:alEnd(b, j)]) != 0 || sameKinds(a, sepEnd(a, alEnd(a, i)), b, sepEnd(b, alEnd(b, j))))))))
 //@ func compareRPMVersionString
 //@   loop 1 invariant 0 <= i && i <= len(a) && 0 <= j && j <= len(b)
 //@   loop 2 invariant 0 <= i && i <= len(a)
@@ -28,6 +40,21 @@ package rpm
 //@   loop 5 invariant 0 <= j && j <= len(b) && jStart <= j
 //@   loop 6 invariant 0 <= i && i <= len(a) && iStart <= i
 //@   loop 7 invariant 0 <= j && j <= len(b) && jStart <= j
+//@   loop 1 decreases len(a) - i + len(b) - j   // termination (C06): a round ends, or consumes a tilde, a caret or a segment
+//@   loop 2 decreases len(a) - i
+//@   loop 3 decreases len(b) - j
+//@   loop 4 decreases len(a) - i
+//@   loop 5 decreases len(b) - j
+//@   loop 6 decreases len(a) - i
+//@   loop 7 decreases len(b) - j
+//@   ensures rpmvercmp: sameKinds(a, sepEnd(a, 0), b, sepEnd(b, 0)) ==> result == rpmFrom(a, sepEnd(a, 0), b, sepEnd(b, 0))   [C11] using seg
+//@   loop 1 invariant seg: sameKinds(a, sepEnd(a, 0), b, sepEnd(b, 0)) ==> sameKinds(a, sepEnd(a, i), b, sepEnd(b, j)) && rpmFrom(a, sepEnd(a, 0), b, sepEnd(b, 0)) == rpmFrom(a, sepEnd(a, i), b, sepEnd(b, j))
+//@   loop 2 invariant seg: sameKinds(a, sepEnd(a, 0), b, sepEnd(b, 0)) ==> sameKinds(a, sepEnd(a, i), b, sepEnd(b, j)) && rpmFrom(a, sepEnd(a, 0), b, sepEnd(b, 0)) == rpmFrom(a, sepEnd(a, i), b, sepEnd(b, j))
+//@   loop 3 invariant seg: sameKinds(a, sepEnd(a, 0), b, sepEnd(b, 0)) ==> sameKinds(a, sepEnd(a, i), b, sepEnd(b, j)) && rpmFrom(a, sepEnd(a, 0), b, sepEnd(b, 0)) == rpmFrom(a, sepEnd(a, i), b, sepEnd(b, j))
+//@   loop 4 invariant seg: dgEnd(a, iStart) == dgEnd(a, i)
+//@   loop 5 invariant seg: dgEnd(b, jStart) == dgEnd(b, j)
+//@   loop 6 invariant seg: alEnd(a, iStart) == alEnd(a, i)
+//@   loop 7 invariant seg: alEnd(b, jStart) == alEnd(b, j)
 //@   bounded alphabet "019a~.^" maxlen 3
 //@   comparator a ~ b                                     [C01]
 
